@@ -346,3 +346,136 @@ func trunc(b []byte) []byte {
 	}
 	return b
 }
+
+// TestC04ChattyServerSenderFailure: the query fails on the client's side - the streaming callback
+// returns an error, or hands over columns that cannot be encoded - while the server keeps sending
+// progress or log packets with gaps shorter than the read timeout, so that no read ever times out.
+// The call returns all the same (within the read timeout plus a grace period), and the client is
+// closed or usable at a packet boundary (ungated; the schedule is the runtime's).
+func TestC04ChattyServerSenderFailure(t *testing.T) {
+	st := stats.G()
+	rapid.Check(t, func(rt *rapid.T) {
+		rapid.SyncTest(rt, func(rt *rapid.T) {
+			comp := compModes[rapid.SampledFrom([]int{0, 2}).Draw(rt, "compression")]
+			readTO := rapid.SampledFrom([]time.Duration{200 * time.Millisecond, time.Second}).Draw(rt, "read-timeout")
+			gap := time.Duration(rapid.IntRange(1, 40).Draw(rt, "gap-ms")) * time.Millisecond
+			failRound := rapid.IntRange(0, 3).Draw(rt, "failing-round")
+			how := rapid.SampledFrom([]string{"callback-error", "ragged-input", "callback-error-after-wait"}).Draw(rt, "failure")
+			kind := rapid.SampledFrom([]string{"progress", "log"}).Draw(rt, "streamed-packet")
+			e := newEnv(54460)
+			defer e.conn.ForceClose()
+			cols := drawInput(rt, "col", 2, 1)
+			e.srv.Steps = append(e.srv.Steps, itemStep(headerItem(cols), simnet.AfterQuery(1), comp.Method, nil))
+			it := Item{Kind: "progress", Progress: ref.Progress{Rows: 1, Bytes: 1}}
+			if kind == "log" {
+				it = Item{Kind: "log", Logs: []logRow{{Time: 1, Host: "h", QueryID: "q", Source: "s", Text: "t"}}}
+			}
+			const n = 1500
+			for i := 0; i < n; i++ {
+				stp := itemStep(it, nil, 0, nil)
+				stp.Delay = gap
+				e.srv.Steps = append(e.srv.Steps, stp)
+			}
+			opt := baseOptions(54460, comp)
+			opt.ReadTimeout = readTO
+			client, err := e.connect(context.Background(), opt)
+			if err != nil {
+				rt.Fatalf("connect: %v", err)
+			}
+			var tf time.Time
+			round := 0
+			cbErr := errors.New("producer failed")
+			bad := new(proto.ColUInt8)
+			in := protoInput(cols)
+			if how == "ragged-input" {
+				in = append(in, proto.InputColumn{Name: "ragged", Data: bad})
+				for i := 0; i < cols[0].col.Column().Rows(); i++ {
+					bad.Append(1)
+				}
+			}
+			q := ch.Query{Body: "INSERT INTO t VALUES", Input: in,
+				OnInput: func(ctx context.Context) error {
+					if round == failRound {
+						if how == "callback-error-after-wait" {
+							time.Sleep(3 * gap)
+						}
+						tf = time.Now()
+						if how == "ragged-input" {
+							bad.Append(2) // one row more than the other columns from now on
+							for _, c := range cols {
+								c.col.Column().Reset()
+								c.col.AppendBulk(c.rows)
+							}
+							*bad = (*bad)[:0]
+							for i := 0; i <= len(cols[0].rows); i++ {
+								bad.Append(3)
+							}
+							return nil
+						}
+						return cbErr
+					}
+					round++
+					for _, c := range cols {
+						c.col.Column().Reset()
+						c.col.AppendBulk(c.rows)
+					}
+					if how == "ragged-input" {
+						*bad = (*bad)[:0]
+						for i := 0; i < len(cols[0].rows); i++ {
+							bad.Append(1)
+						}
+					}
+					return nil
+				},
+				OnProgress: func(ctx context.Context, p proto.Progress) error { return nil },
+				OnLogs:     func(ctx context.Context, l []ch.Log) error { return nil },
+			}
+			derr := doBounded(rt, e, client, context.Background(), q, 5*time.Minute, "chatty server, failing sender")
+			if derr == nil {
+				rt.Fatalf("[%s at round %d] Do returned nil", how, failRound)
+			}
+			if how != "ragged-input" && !errors.Is(derr, cbErr) {
+				rt.Fatalf("[%s] Do error %q does not carry the callback's error", how, derr)
+			}
+			if tf.IsZero() {
+				rt.Fatalf("harness: the failing round was never reached (%v)", derr)
+			}
+			if lim := readTO + 2*time.Second; time.Since(tf) > lim {
+				rt.Fatalf("[%s at round %d] Do returned %v after the sender failed while the server kept sending %s packets every %v (no read ever timed out); limit readTimeout+2s = %v", how, failRound, time.Since(tf), kind, gap, lim)
+			}
+			synctest.Wait()
+			if !client.IsClosed() {
+				// left open: then at a packet boundary in both directions
+				var perr error
+				var pending int
+				e.srv.WithStream(func(cs *ref.ClientStream) { perr, pending = cs.Err, cs.Pending() })
+				if perr != nil || pending != 0 {
+					rt.Fatalf("[%s] client left open, but what it wrote is not a whole number of packets (%v, %d bytes pending)", how, perr, pending)
+				}
+				e.srv.AutoPong = true
+				pctx, pcancel := context.WithTimeout(context.Background(), 5*time.Second)
+				perr2 := client.Ping(pctx)
+				pcancel()
+				if perr2 != nil {
+					rt.Fatalf("[%s at round %d] the query failed on the sending side in the middle of an INSERT the server is still answering; the client stays open (error %v) but is not usable: Ping returns %v", how, failRound, derr, perr2)
+				}
+				return
+			}
+			if err := client.Ping(context.Background()); !errors.Is(err, ch.ErrClosed) {
+				rt.Fatalf("closed client: Ping returned %v", err)
+			}
+			st.Case(stats.Hash("c04chatty", how, failRound, gap, readTO, kind, comp.Name, fmt.Sprint(typeNamesOf(cols))), true, func() any {
+				return map[string]any{"kind": "chatty-server-sender-failure", "failure": how, "round": failRound, "gap": gap.String(), "read_timeout": readTO.String(), "streamed": kind, "compression": comp.Name, "returned_after": time.Since(tf).String()}
+			})
+			st.Label("failure:" + how)
+		})
+	})
+}
+
+func typeNamesOf(cols []inputCol) []string {
+	var out []string
+	for _, c := range cols {
+		out = append(out, c.kind.T.Name)
+	}
+	return out
+}
